@@ -54,6 +54,8 @@ func (c *ConfigHandler) ServeHTTP(w http.ResponseWriter, r *http.Request) {
 		if err != nil {
 			logger.PfcpLog.Errorln("http req read body failed")
 			sendHTTPResp(http.StatusBadRequest, w)
+
+			return
 		}
 
 		logger.PfcpLog.Debugln(string(body))
@@ -64,6 +66,8 @@ func (c *ConfigHandler) ServeHTTP(w http.ResponseWriter, r *http.Request) {
 		if err != nil {
 			logger.PfcpLog.Errorln("Json unmarshal failed for http request")
 			sendHTTPResp(http.StatusBadRequest, w)
+
+			return
 		}
 
 		handleSliceConfig(&nwSlice, c.upf)
